@@ -843,6 +843,30 @@ def _check_report(run, repo, world):
                    path_str(W.trace(h, bad[0])[-8:], 8) if bad else ""),
                where(mod, fn), sample={"rule": "R-REPORT",
                                        "worlds_at_loop_head": len(W.at(h))})
+        # a send-twice command awaiting its repeat is resolved by whatever
+        # comes next - the timer, a forward frame, a backward frame, 'no':
+        # no pass on which one of them arrived ends with it still pending
+        # (the facts about current_command die where it is cleared)
+        def still(w):
+            cs = {(f[1], f[2]) for f in w if isinstance(f, tuple) and
+                  f[0] == "cond"}
+            if ("current_command.sendtwice", True) not in cs:
+                return False
+            return any(x in cs for x in (
+                ("timeout", True),
+                ("isinstance(frame, dali.frame.ForwardFrame)", True),
+                ("isinstance(frame, dali.frame.BackwardFrame)", True),
+                ("frame == 'no'", True)))
+        bads = W.worlds_with(h, still)
+        run.ob("R-REPORT", Q + "#send-twice-resolved-by-next-report",
+               not bads,
+               "a send-twice command stays pending after the pass on which "
+               "its repeat failed to arrive (%s): it is not flagged as "
+               "failed there, and an identical frame arriving later is "
+               "taken for its repeat" % (sorted(
+                   "%s=%s" % (f[1], f[2]) for f in bads[0]
+                   if isinstance(f, tuple) and f[0] == "cond")[:6]
+                   if bads else ""), where(mod, fn))
         badp = W.worlds_with(h, lambda w: "pending-reported" in w)
         run.ob("R-REPORT", Q + "#reported-then-cleared", not badp,
                "a pending command is reported but stays pending (would be "
